@@ -19,7 +19,7 @@ def instrument(i, nfl=2):
 
 
 def bead_layout(inst, stream=0, container='int', n_events=120, n_pop=6, few=False, voltage_shift=0, linear_fl=False, res=None):
-    spec = dict(n_pop=n_pop, ratio=3.0, cv=0.03, n_events=n_events, laws=BEAD_LAWS[:len(inst['fl'])], blank=False, saturated=None,
+    spec = dict(n_pop=n_pop, ratio=3.0, cv=0.03, n_events=n_events, laws=(BEAD_LAWS * 4)[:len(inst['fl'])], blank=False, saturated=None,
                 container=container, stream=stream, order='shuffled', lead=250, trail=100, names=inst['fl'], res=res)
     if few:
         spec.update(n_events=20, lead=100, trail=50)
